@@ -1,8 +1,9 @@
 """C18 — bit widths reported for a concrete model bound the values it really produces
 (DESIGN.md §4 C18).
 
-Three streams, all on REAL qkeras objects:
-  types  : random small quantized chains -> QTools(...)._layer_map vs the Lean `chainTypes`
+Three streams, all on REAL qkeras objects, on every analysis ROUTE (is_inference False / True with re-quantized or
+stored constants / False again on the same model):
+  types  : random small quantized chains -> QTools(...)._layer_map vs the Lean `chainTypes` / `chainTypesInf`
   values : the same models are RUN (layer by layer, eagerly) on random and extremal inputs; every
            layer input, effective weight, bias, pre-activation and activation value is judged by
            the Lean `Val` predicate of the type the REAL qtools reported for it
@@ -11,6 +12,7 @@ Three streams, all on REAL qkeras objects:
 """
 import contextlib
 import io
+import json
 import os
 
 import numpy as np
@@ -32,17 +34,39 @@ def quiet():
 
 
 def mk(spec):
-  """spec = (class name, kwargs) -> fresh qkeras quantizer object"""
+  """spec = (class name, kwargs) -> fresh qkeras quantizer object.  The reserved key `_form` selects the ARGUMENT FORM
+  of the numeric options (same values): "np" = np.int64 / np.float32 scalars, "arr" = 0-d arrays / np.float64"""
   if spec is None:
     return None
   from qkeras import quantizers as Q
-  return getattr(Q, spec[0])(**spec[1])
+  kw = {k: v for k, v in spec[1].items() if k != "_form"}
+  form = spec[1].get("_form")
+  if form:
+    for k, v in list(kw.items()):
+      if isinstance(v, bool) or v is None or isinstance(v, str):
+        continue
+      if isinstance(v, int):
+        if form in ("np", "arr"):
+          kw[k] = np.int64(v) if form == "np" else np.array(v, dtype=np.int32)
+      elif isinstance(v, float):
+        kw[k] = np.float32(v) if form.startswith("np") else np.array(v, dtype=np.float64)
+  return getattr(Q, spec[0])(**kw)
 
 
 def label(spec):
   if spec is None:
     return "None"
   return "%s(%s)" % (spec[0], ",".join("%s=%s" % kv for kv in sorted(spec[1].items())))
+
+
+def with_form(rng, spec, p=0.2, ints=True):
+  """a seeded fraction of the quantizers is built from numpy scalars / 0-d arrays instead of python numbers.
+  `ints=False` (kernel / bias quantizers): only the float options — qlayers.QInitializer computes
+  `2**-quantizer.bits`, which numpy refuses for an np.int64 `bits` (layer construction fails; outside C18's anchors,
+  see notes/C18.md)"""
+  if spec is None or rng.random() >= p:
+    return spec
+  return (spec[0], dict(spec[1], _form=["np", "arr"][int(rng.integers(0, 2))] + ("" if ints else "f")))
 
 
 def qk_json(q):
@@ -86,7 +110,38 @@ def weight_specs(rng, want):
     return ("ternary", dict())
   if want == "binary_auto":
     return ("binary", dict())
+  # every other registered quantizer class as a KERNEL quantizer (QuantizerFactory.quantizer_lookup): the alias
+  # spellings that share a mode / value set with ternary, binary (stochastic_*, bernoulli = binary(use_01)),
+  # the unsigned / renamed fixed-point classes, the unsigned po2 class, and no quantizer at all
+  if want == "stochastic_ternary":
+    return ("stochastic_ternary", dict(alpha=1))
+  if want == "stochastic_binary":
+    return ("stochastic_binary", dict(alpha=1))
+  if want == "bernoulli":
+    return ("bernoulli", dict(alpha=1))
+  if want == "binary01":
+    return ("binary", dict(use_01=True, alpha=1))
+  if want == "stochastic_ternary_auto":
+    return ("stochastic_ternary", dict())
+  if want == "stochastic_binary_auto":
+    return ("stochastic_binary", dict())
+  if want == "relu_po2":
+    return ("quantized_relu_po2", dict(bits=int(rng.choice([3, 4]))))
+  if want == "relu_po2_mv":
+    return ("quantized_relu_po2", dict(bits=int(rng.choice([3, 4])), max_value=float(rng.choice(PO2_MAX_VALUES))))
+  if want == "po2_4":
+    return ("quantized_po2", dict(bits=4))
+  if want == "relu":
+    b = int(rng.choice([2, 3, 4]))
+    return ("quantized_relu", dict(bits=b, integer=int(rng.choice([0, 1]))))
+  if want == "tanh":
+    return ("quantized_tanh", dict(bits=int(rng.choice([3, 4]))))
+  if want == "none":
+    return None
   raise ValueError(want)
+
+
+ALIAS_WKINDS = ["stochastic_ternary", "stochastic_binary", "bernoulli", "binary01", "relu_po2", "relu", "tanh", "none"]
 
 
 def act_specs(rng, want):
@@ -121,7 +176,12 @@ def act_specs(rng, want):
     return ("bernoulli", dict(alpha=1))
   if want == "stochastic_binary":
     return ("stochastic_binary", dict(alpha=1))
+  if want == "stochastic_ternary":
+    return ("stochastic_ternary", dict(alpha=1))
   raise ValueError(want)
+
+
+UNIT_PRES = ["ternary", "stochastic_ternary", "binary", "stochastic_binary", "bernoulli", "binary01", "po2", "relu_po2"]
 
 
 def bias_specs(rng, want):
@@ -139,9 +199,34 @@ def bias_specs(rng, want):
     # more fraction bits than a kernel accumulator scaled up by a large po2 scale
     b, i = [(8, 1), (7, 0), (6, 0)][int(rng.integers(0, 3))]
     return qb(b, i, symmetric=int(rng.integers(0, 2)), alpha=None)
-  if want == "po2":
+  if want in ("po2", "unused_po2"):
     return ("quantized_po2", dict(bits=3))
+  if want == "unused_fixed":
+    return qb(4, 0, alpha=None)
+  if want == "unused_ternary":
+    return ("ternary", dict(alpha=1))
+  # every other registered class as a BIAS quantizer; "none_q" = a bias without quantizer (default type)
+  if want == "ternary":
+    return ("ternary", dict(alpha=1))
+  if want == "binary":
+    return ("binary", dict(alpha=1))
+  if want == "stochastic_ternary":
+    return ("stochastic_ternary", dict(alpha=1))
+  if want == "stochastic_binary":
+    return ("stochastic_binary", dict(alpha=1))
+  if want == "bernoulli":
+    return ("bernoulli", dict(alpha=1))
+  if want == "relu_po2":
+    return ("quantized_relu_po2", dict(bits=3))
+  if want == "relu":
+    return ("quantized_relu", dict(bits=3, integer=int(rng.choice([0, 1]))))
+  if want == "none_q":
+    return None
   raise ValueError(want)
+
+
+ALIAS_BKINDS = ["ternary", "binary", "stochastic_ternary", "stochastic_binary", "bernoulli", "relu_po2", "relu", "none_q"]
+UNUSED_BKINDS = ["unused_po2", "unused_fixed", "unused_ternary"]    # use_bias=False, bias_quantizer given anyway
 
 
 # --------------------------------------------------------------------------- model specs
@@ -224,6 +309,75 @@ def gen_specs(rng, tier):
   specs.append(dict(stream="est_dw", family="depthwise", pre=None, cin=2, ksize=(1, 1), est_range=(-1.0, 1.0),
                     layers=[dict(w="fixed40", b="fixed40", act=None, act_mode=None, dm=2,
                                  set_w=([[[[0.125, 0.875], [0.125, 0.125]]]], [0.0, 0.875, 0.0, 0.0]))]))
+  # (c2) EVERY registered quantizer class as kernel / bias / activation quantizer.  qtools dispatches on `mode` in the
+  #      factory tables but on substrings of `.name` inside Mux / AndGate / Adder ("binary", "ternary", "po2"): classes
+  #      that share a mode under another name (stochastic_ternary, stochastic_binary, bernoulli) must get the widths of
+  #      the plain spelling.  Each alias kernel class in front of a fixed-point source, a quantized_relu and a
+  #      quantized_bits activation (always), and of one unit / po2 activation
+  off = int(rng.integers(0, 4))
+  src_forms = [None, "tuple", "default"]
+  for i, wk in enumerate(ALIAS_WKINDS):
+    for j, pre in enumerate([None, "relu", "bits"]):
+      specs.append(dict(stream="alias", family=fams[(i + j + off) % 4], pre=pre,
+                        src_form=src_forms[(i + j) % 3] if pre is None else None,
+                        layers=[dict(w=wk, b=biases[(i + j) % 3], act=None, act_mode=None)]))
+    specs.append(dict(stream="alias_unit", family=fams[(i + off + 3) % 4], pre=UNIT_PRES[int(rng.integers(0, len(UNIT_PRES)))],
+                      layers=[dict(w=wk, b=biases[int(rng.integers(0, 3))], act=None, act_mode=None)]))
+  for i, bk in enumerate(ALIAS_BKINDS):
+    specs.append(dict(stream="alias_bias", family=fams[(i + off) % 4], pre=[None, "relu", "bits"][i % 3],
+                      layers=[dict(w=["fixed", "stochastic_ternary", "po2", "ternary", "stochastic_binary"][i % 5], b=bk,
+                                   act=None, act_mode=None)]))
+  # aimed (finding C18-unit-bias-intbits): a ternary / +-1 bias under a kernel accumulator WITHOUT fraction bits
+  # (source quantized_bits(2, 2): values -4, -2, 0, 2) — the bias adder reads the unit record with -1 fraction bits
+  for i, bk in enumerate(["binary", "stochastic_ternary"]):
+    specs.append(dict(stream="unit_bias", family="dense", pre=None, n_in=1 + i, src=("s", 2, 2),
+                      layers=[dict(w=["ternary", "stochastic_binary"][i], b=bk, act=None, act_mode=None, units=2)]))
+  # a bias QUANTIZER on a layer built with use_bias=False (e.g. one quantizer configuration applied to every layer)
+  for i, bk in enumerate(UNUSED_BKINDS):
+    specs.append(dict(stream="unused_bias", family=fams[(i + off) % 4], pre=[None, "relu"][i % 2],
+                      layers=[dict(w=["fixed", "po2", "ternary"][i % 3], b=bk, act=None, act_mode=None)]))
+  for wk in ("stochastic_ternary_auto", "stochastic_binary_auto"):
+    specs.append(dict(stream="unit_auto", family="dense", pre=None,
+                      layers=[dict(w=wk, b="none", act=None, act_mode=None)]))
+  # alias activations as layer.activation / QActivation behind an alias kernel
+  for i, act in enumerate(["stochastic_ternary", "stochastic_binary", "bernoulli"]):
+    specs.append(dict(stream="alias_act", family=fams[(i + off) % 4], pre=[None, "relu", "bits"][i % 3], flatten_between=True,
+                      layers=[dict(w=["stochastic_binary", "fixed", "stochastic_ternary"][i], b=biases[i % 3], act=act,
+                                   act_mode=["attr", "layer", "attr"][i]),
+                              dict(w=["fixed", "stochastic_ternary", "po2"][i], b="none", act=None, act_mode=None, kind="dense")]))
+  # the third substring test, `"po2" in name` (Mux / AndGate copy max_val_po2 from the operand whose NAME contains po2):
+  # the unsigned class quantized_relu_po2 with a max_value as kernel in front of every unit class, and as activation
+  # in front of unit kernels
+  for i, pre in enumerate(["ternary", "stochastic_ternary", "binary", "stochastic_binary", "bernoulli", "binary01"]):
+    specs.append(dict(stream="alias_po2name", family=fams[(i + off) % 4], pre=pre,
+                      layers=[dict(w=["relu_po2_mv", "po2_mv"][i % 2], b=biases[i % 3], act=None, act_mode=None)]))
+  for i, wk in enumerate(["ternary", "stochastic_binary", "bernoulli"]):
+    specs.append(dict(stream="alias_po2name", family=fams[(i + off + 1) % 4], pre="relu_po2_mv",
+                      layers=[dict(w=wk, b=biases[i % 3], act=None, act_mode=None)]))
+  # (c3) the is_inference=True route (every model takes it once, see run()); aimed: power-of-two kernels / biases whose
+  #      entry of largest MAGNITUDE is negative only / positive only / attained with both signs, at and below the top
+  #      exponent of the type — the reported weight type must contain every constant, whatever its sign
+  k = 0
+  for top in ("neg", "pos", "tied"):
+    for wk in ("po2_4", "po2", "po2_mv"):
+      fam = ["dense", "conv2d", "depthwise", "conv1d"][(k + off) % 4]
+      specs.append(dict(stream="inf_po2", family=fam, pre=[None, "relu", "bits"][k % 3], cin=2, n_in=[2, 3, 4][k % 3],
+                        inference="both",
+                        layers=[dict(w=wk, b=["none", "po2", "fixed"][k % 3], act=None, act_mode=None,
+                                     raw="top_" + top, braw="top_" + ["neg", "pos", "tied"][(k // 3 + k) % 3],
+                                     below_top=k % 2)]))
+      k += 1
+  for top in ("pos", "tied"):
+    specs.append(dict(stream="inf_po2", family=fams[(k + off) % 4], pre=None, cin=2, n_in=3, inference="both",
+                      layers=[dict(w="relu_po2", b="relu_po2", act=None, act_mode=None, raw="top_" + top, braw="top_neg",
+                                   below_top=k % 2)]))
+    k += 1
+  # (c4) one quantizer OBJECT serving two layers (kernel quantizer and activation), the model analysed repeatedly
+  for i, wk in enumerate(["fixed", "stochastic_ternary", "po2"]):
+    specs.append(dict(stream="shared_objects", family=fams[(i + off) % 4], pre=[None, "relu", "bits"][i % 3], share=True,
+                      flatten_between=True, history=True,
+                      layers=[dict(w=wk, b=biases[i % 3], act="relu", act_mode="layer"),
+                              dict(w=wk, b="none", act="relu", act_mode="layer", kind="dense")]))
   # (d) chains: layer.activation vs separate QActivation, Flatten between conv and dense
   n_chain = 8 if tier == "quick" else 120
   for _ in range(n_chain):
@@ -254,8 +408,10 @@ def lattice(bits, integer, signed):
   return lo, hi, step
 
 
-def raw_weights(rng, spec, shape, mode, wkind=None):
+def raw_weights(rng, spec, shape, mode, wkind=None, below_top=0):
   """raw (pre-quantization) kernel: lattice points incl. both saturation ends, as short dyadics"""
+  if spec is None:                          # no quantizer: constants on the default (8, 0, signed) lattice
+    return (rng.integers(-128, 128, size=shape) / 128.0).astype(np.float32)
   name, kw = spec
   n_out = shape[-1]
   if name == "quantized_bits":
@@ -274,31 +430,72 @@ def raw_weights(rng, spec, shape, mode, wkind=None):
       sc = 2.0 ** rng.integers(lo_e, hi_e, size=n_out)
       w = w * sc.reshape((1,) * (len(shape) - 1) + (n_out,))
     return w.astype(np.float32)
-  if name in ("ternary", "binary"):
+  if name in ("ternary", "binary", "stochastic_ternary", "stochastic_binary", "bernoulli"):
     w = rng.choice(np.array([-1.0, -0.5, -0.1, 0.0, 0.1, 0.5, 1.0]), size=shape)
     if "alpha" not in kw:
       sc = 2.0 ** rng.integers(-3, 2, size=n_out)
       w = w * sc.reshape((1,) * (len(shape) - 1) + (n_out,))
     return w.astype(np.float32)
-  if name == "quantized_po2":
+  if name in ("quantized_po2", "quantized_relu_po2"):
     if mode == "allmax":                    # every weight saturates at the quantizer's top power of two
       return np.full(shape, 64.0, dtype=np.float32)
+    if mode.startswith("top_"):
+      return po2_top(rng, name, kw, shape, mode[4:], below_top)
     e = rng.integers(-5, 5, size=shape)
     s = rng.choice(np.array([-1.0, 1.0]), size=shape)
     w = s * 2.0 ** e
     w = np.where(rng.random(shape) < 0.1, 0.0, w)
     return w.astype(np.float32)
+  if name == "quantized_relu":
+    lo, hi, step = lattice(kw["bits"], kw["integer"], False)
+    codes = rng.integers(lo - 1, hi + 2, size=shape)
+    return (codes * step).astype(np.float32)
+  if name == "quantized_tanh":
+    return (rng.integers(-16, 17, size=shape) / 8.0).astype(np.float32)
   raise ValueError(name)
 
 
-def raw_bias(rng, spec, n):
-  if spec is None:
-    return None
+def po2_top(rng, name, kw, shape, top, below_top):
+  """power-of-two constants that are fixed points of the quantizer: the entry of largest magnitude 2^E is negative only
+  ("neg"), positive only ("pos") or attained with both signs ("tied"); every other entry has a smaller exponent.
+  E = the top exponent of the type, or one below it (`below_top`)"""
+  signed = name == "quantized_po2"
+  nsb = kw["bits"] - (1 if signed else 0)
+  emax = 2 ** (nsb - 1) - 1
+  mv = kw.get("max_value")
+  if mv:
+    emax = min(emax, int(np.round(np.log2(mv))))        # the real quantizer rounds log2(max_value)
+  emin = -(2 ** (nsb - 1))
+  e_top = max(emin + 1, emax - (1 if below_top else 0))
+  n = int(np.prod(shape))
+  e = rng.integers(max(emin, e_top - 3), e_top, size=n)
+  sg = rng.choice(np.array([-1.0, 1.0]), size=n) if signed else np.ones(n)
+  w = sg * 2.0 ** e
+  pos = rng.permutation(n)
+  if not signed:
+    w[pos[0]] = 2.0 ** e_top
+  elif top == "neg":
+    w[pos[0]] = -(2.0 ** e_top)
+  elif top == "pos":
+    w[pos[0]] = 2.0 ** e_top
+  else:
+    w[pos[0]] = -(2.0 ** e_top)
+    w[pos[-1]] = 2.0 ** e_top          # a one-element tensor stays "pos"
+  return w.reshape(shape).astype(np.float32)
+
+
+def raw_bias(rng, spec, n, mode="random", below_top=0):
+  if spec is None:                          # a bias without quantizer: the default (8, 0, signed) lattice
+    return (rng.integers(-128, 128, size=n) / 128.0).astype(np.float32)
   name, kw = spec
-  if name == "quantized_bits":
-    lo, hi, step = lattice(kw["bits"], kw["integer"], True)
+  if name in ("quantized_bits", "quantized_relu"):
+    lo, hi, step = lattice(kw["bits"], kw["integer"], name == "quantized_bits")
     codes = rng.integers(lo - 1, hi + 2, size=n)
     return (codes * step).astype(np.float32)
+  if name in ("ternary", "binary", "stochastic_ternary", "stochastic_binary", "bernoulli"):
+    return rng.choice(np.array([-1.0, -0.5, 0.0, 0.5, 1.0]), size=n).astype(np.float32)
+  if mode.startswith("top_"):
+    return po2_top(rng, name, kw, (n,), mode[4:], below_top)
   e = rng.integers(-3, 3, size=n)
   return (rng.choice(np.array([-1.0, 1.0]), size=n) * 2.0 ** e).astype(np.float32)
 
@@ -335,6 +532,10 @@ def build(rng, spec, idx):
   else:
     ishape = (kh + int(rng.integers(0, 2)), kw_ + int(rng.integers(0, 2)), cin)
   b.ishape = ishape
+  # how the source type reaches QTools: a list (default), a tuple, or not at all (cfg.default_source_quantizer)
+  b.src_form = spec.get("src_form")
+  if b.src_form == "default":
+    b.src_spec = qb(8, 0, alpha=None)
   x = x_in = keras.layers.Input(ishape, name="in%d" % idx)
   b.nodes = []      # lean chain nodes
   b.items = []      # per keras layer: dict(kind=..., layer=..., ...)
@@ -354,40 +555,58 @@ def build(rng, spec, idx):
     return lyr(x)
 
   if spec.get("pre"):
-    x = add_qact(x, act_specs(rng, spec["pre"]))
+    x = add_qact(x, with_form(rng, act_specs(rng, spec["pre"])))
   if spec.get("flatten_first"):
     x = add_pass(x, "flatten")
+  shared = {}
   for li, ls in enumerate(spec["layers"]):
     kind = ls.get("kind", fam)
     if li > 0 and spec.get("flatten_between") and len(x.shape) > 2:
       x = add_pass(x, "flatten")
-    wspec = weight_specs(rng, ls["w"])
-    bspec = bias_specs(rng, ls["b"])
-    aspec = act_specs(rng, ls["act"]) if ls.get("act") else None
-    attr_act = mk(aspec) if (aspec is not None and ls.get("act_mode") == "attr") else None
-    common = dict(use_bias=bspec is not None, bias_quantizer=mk(bspec), activation=attr_act, name=next(names))
+    wspec = with_form(rng, weight_specs(rng, ls["w"]), ints=False)
+    has_bias = ls["b"] != "none" and ls["b"] not in UNUSED_BKINDS
+    bq_spec = None if ls["b"] == "none" else with_form(rng, bias_specs(rng, ls["b"]), ints=False)   # the quantizer handed to the layer
+    bspec = bq_spec if has_bias else None
+    aspec = with_form(rng, act_specs(rng, ls["act"])) if ls.get("act") else None
+    kq, act_obj = mk(wspec), (mk(aspec) if aspec is not None else None)
+    if spec.get("share"):                   # ONE quantizer object for the kernels / activations of all layers
+      if li == 0:
+        shared.update(wspec=wspec, kq=kq, aspec=aspec, act=act_obj)
+      else:
+        wspec, kq, aspec, act_obj = shared["wspec"], shared["kq"], shared["aspec"], shared["act"]
+    attr_act = act_obj if (aspec is not None and ls.get("act_mode") == "attr") else None
+    common = dict(use_bias=has_bias, bias_quantizer=mk(bq_spec), activation=attr_act, name=next(names))
     if kind == "dense":
       if len(x.shape) > 2:
         x = add_pass(x, "flatten")
-      lyr = QDense(ls.get("units", int(rng.choice([1, 2, 3]))), kernel_quantizer=mk(wspec), **common)
+      lyr = QDense(ls.get("units", int(rng.choice([1, 2, 3]))), kernel_quantizer=kq, **common)
       cls = "QDense"
     elif kind == "conv1d":
-      lyr = QConv1D(int(rng.choice([1, 2, 3])), kh, kernel_quantizer=mk(wspec), **common)
+      lyr = QConv1D(int(rng.choice([1, 2, 3])), kh, kernel_quantizer=kq, **common)
       cls = "QConv1D"
     elif kind == "conv2d":
-      lyr = QConv2D(int(rng.choice([1, 2, 5])), (kh, kw_), kernel_quantizer=mk(wspec), **common)
+      lyr = QConv2D(int(rng.choice([1, 2, 5])), (kh, kw_), kernel_quantizer=kq, **common)
       cls = "QConv2D"
     else:
       lyr = QDepthwiseConv2D((kh, kw_), depth_multiplier=ls.get("dm", int(rng.choice([1, 1, 2]))),
-                             depthwise_quantizer=mk(wspec), **common)
+                             depthwise_quantizer=kq, **common)
       cls = "QDepthwiseConv2D"
     x = lyr(x)
-    it = dict(kind="layer", cls=cls, layer=lyr, wspec=wspec, bspec=bspec, aspec=aspec if attr_act is not None else None,
-              raw=ls.get("raw", "random"), wkind=ls["w"], set_w=ls.get("set_w"))
+    it = dict(kind="layer", cls=cls, layer=lyr, wspec=wspec, bspec=bspec, has_bias=has_bias,
+              unused_bspec=None if has_bias else bq_spec, bkind=ls["b"],
+              aspec=aspec if attr_act is not None else None,
+              raw=ls.get("raw", "random"), braw=ls.get("braw", "random"), below_top=ls.get("below_top", 0),
+              wkind=ls["w"], set_w=ls.get("set_w"))
     b.items.append(it)
     b.nodes.append(None)      # filled after the weights are known (kernel shape, auto_po2 scales)
     if aspec is not None and attr_act is None:
-      x = add_qact(x, aspec)
+      if spec.get("share"):
+        lyr2 = QActivation(act_obj, name=next(names))
+        b.nodes.append({"t": "qact", "q": qk_json(act_obj)})
+        b.items.append(dict(kind="qact", layer=lyr2, spec=aspec))
+        x = lyr2(x)
+      else:
+        x = add_qact(x, aspec)
   b.model = keras.Model(x_in, x)
   # ---- weights
   for it in b.items:
@@ -395,9 +614,9 @@ def build(rng, spec, idx):
       continue
     lyr = it["layer"]
     ws = lyr.get_weights()
-    new = [raw_weights(rng, it["wspec"], ws[0].shape, it["raw"], it["wkind"])]
-    if it["bspec"] is not None:
-      new.append(raw_bias(rng, it["bspec"], ws[1].shape[0]))
+    new = [raw_weights(rng, it["wspec"], ws[0].shape, it["raw"], it["wkind"], it["below_top"])]
+    if it["has_bias"]:
+      new.append(raw_bias(rng, it["bspec"], ws[1].shape[0], it["braw"], it["below_top"]))
     if it["set_w"] is not None:
       new = [np.asarray(v, dtype=np.float32) for v in it["set_w"]][: len(ws)]
     lyr.set_weights(new)
@@ -530,6 +749,7 @@ def run(run: core.Run, tier: str):
   from absl import logging as absl_logging
   absl_logging.set_verbosity(absl_logging.FATAL)
   rng = np.random.default_rng(run.seed)
+  tf.random.set_seed(int(run.seed))         # bernoulli samples in every call; keep the run reproducible
   run.extra["rule"] = (
       "models: grid of (weight kind x preceding activation kind) single dense/conv1d/conv2d/depthwise layers "
       "with none/fixed/po2 bias, aimed most-negative cases with N=1..4 terms, default-alpha ternary/binary "
@@ -537,7 +757,15 @@ def run(run: core.Run, tier: str):
       "auto_po2 kernels with all scales << 1 / >> 1 under a bias wider than the scaled products, po2 kernels / "
       "activations with non-power-of-two max_value (1.5, 3, 5, 6; aimed: all weights at the top power of two), "
       "depthwise estimator cases with depth multiplier > 1, random 2-layer chains with "
-      "layer.activation or separate QActivation; inputs: all-max, all-min, sign-aligned and anti-aligned with "
+      "layer.activation or separate QActivation; EVERY registered quantizer class as kernel / bias / activation "
+      "quantizer (stochastic_ternary, stochastic_binary, bernoulli, binary(use_01), quantized_relu_po2, quantized_relu, "
+      "quantized_tanh, no quantizer) in front of fixed-point and unit / po2 inputs; bias quantizers on use_bias=False "
+      "layers; source quantizers as list / tuple / default; a seeded fraction of quantizers built from numpy scalars / "
+      "0-d arrays; one quantizer object shared by two layers; ROUTES per model: QTools(is_inference=False), "
+      "QTools(is_inference=True) with model_weights_already_quantized False (re-quantized) or True (constants stored "
+      "quantized), and is_inference=False again on the same model (must equal the first); aimed inference cases: po2 "
+      "kernels / biases whose largest-magnitude constant is negative only / positive only / tied, at and below the "
+      "type's top exponent; inputs: all-max, all-min, sign-aligned and anti-aligned with "
       "each output channel's effective kernel, random lattice points; non-trivial = distinct (stream, family, "
       "weight/bias/activation quantizers, kernel shape); every tensor value is judged by Lean Val on the type "
       "the REAL QTools reported")
@@ -549,11 +777,20 @@ def run(run: core.Run, tier: str):
   inexact = 0
   n_pre = 0
 
+  judge_cache = {}
+
   def judge(rec, vals, meta):
+    """queue `vals` for the Lean value predicate of record `rec`; identical (record, values) requests — the same tensor
+    judged against the same reported type on another route — share one driver line"""
     if rec is None or rec["is_floating_point"]:
       return
-    judge_lines.append({"op": "judge", "q": rec, "vals": core.enc_list(vals)})
-    judge_meta.append(meta)
+    vals = np.asarray(vals, dtype=np.float64)
+    ck = (json.dumps(rec, sort_keys=True), vals.tobytes())
+    li = judge_cache.get(ck)
+    if li is None:
+      li = judge_cache[ck] = len(judge_lines)
+      judge_lines.append({"op": "judge", "q": rec, "vals": core.enc_list(vals)})
+    judge_meta.append((meta, li))
 
   for idx, spec in enumerate(specs):
     b = build(rng, spec, idx)
@@ -570,11 +807,11 @@ def run(run: core.Run, tier: str):
     for it in b.items:
       if it["kind"] == "layer":
         lyr = it["layer"]
-        kq = lyr.get_quantizers()[0]
+        kq, bq_obj = lyr.get_quantizers()[0], lyr.get_quantizers()[1]
         k, bias = eff_weights(lyr)
         it["k"], it["bias"] = k, bias
         scales = None
-        if it["wspec"][0] == "quantized_bits" and getattr(kq, "alpha", None) == "auto_po2":
+        if it["wspec"] is not None and it["wspec"][0] == "quantized_bits" and getattr(kq, "alpha", None) == "auto_po2":
           sc = qtools_util.get_scale_from_quantized_bits_with_auto_po2(kq)
           if sc is not None:
             scales = [float(v) for v in np.asarray(sc).ravel()]
@@ -583,123 +820,200 @@ def run(run: core.Run, tier: str):
         else:
           it["scale"] = None
         it["scales"] = scales
-        node = {"t": "layer", "kind": it["cls"], "w": qk_json(kq), "b": qk_json(lyr.get_quantizers()[1]) if lyr.use_bias else None,
+        # a slot without quantizer gets cfg.default_interm_quantizer; `b` is null exactly when use_bias=False
+        node = {"t": "layer", "kind": it["cls"], "w": qk_json(kq) if kq is not None else INTERM,
+                "b": (qk_json(bq_obj) if bq_obj is not None else INTERM) if lyr.use_bias else None,
                 "shape": it["kshape"], "act": qk_json(lyr.activation) if it["aspec"] is not None else None,
                 "scales": core.enc_list(scales) if scales else None}
+        # the constants `qtools_util.get_weights` hands to update_inference_values (po2 classes read them), and the
+        # quantizer object sitting in get_quantizers()[1] of a layer WITHOUT bias
+        it["inf_fields"] = {
+            "wvals": core.enc_list(k.ravel()) if "po2" in type(kq).__name__ else None,
+            "bvals": core.enc_list(bias.ravel()) if (bias is not None and "po2" in type(bq_obj).__name__) else None,
+            "unused_b": None if lyr.use_bias else (qk_json(bq_obj) if bq_obj is not None else None)}
         while b.nodes[ni] is not None:
           ni += 1
         b.nodes[ni] = node
-    # ---- stream 1: the real QTools
+        it["node_index"] = ni
+    # ---- stream 1: the real QTools, on every route: is_inference=False; is_inference=True with the constants
+    #      re-quantized by QTools (model_weights_already_quantized=False) or stored quantized in the layers; and
+    #      is_inference=False AGAIN on the same model (the k-th analysis must equal the first)
     src_q = mk(b.src_spec)
-    try:
-      with quiet():
-        qt = run_qtools.QTools(model, process="horowitz", source_quantizers=[src_q], is_inference=False,
-                               weights_path=None, keras_quantizer="fp32", keras_accumulator="fp32",
-                               for_reference=False)
-    except AssertionError:
-      # adjust_accumulator_for_auto_po2: "depth_multiplier must be 1" — the model must reject it too
-      run.case(("rejected", spec["stream"], spec["family"], idx))
-      run.count("qtools_raises_AssertionError")
-      chain_lines.append({"op": "chain", "src": qk_json(src_q), "nodes": b.nodes})
-      chain_meta.append((idx, spec, ("rejected",), None, b))
-      tf.keras.backend.clear_session()
-      continue
-    lmap = qt._layer_map["layer_data_type_map"]
-    key = (spec["stream"], spec["family"], label(b.src_spec),
-           tuple((it["kind"], it.get("cls"), label(it.get("wspec")), label(it.get("bspec")),
+    src_arg = {None: [src_q], "tuple": (src_q,), "default": None}[b.src_form]
+    src_json = INTERM if b.src_form == "default" else qk_json(src_q)
+    any_auto = any(it["scale"] is not None for it in layers)
+    inf = spec.get("inference") or ("requant" if idx % 2 == 0 else "stored")
+    routes = [("plain", False, True)]
+    if inf in ("requant", "both") or any_auto:
+      routes.append(("inf_requant", True, False))
+    if inf in ("stored", "both") and not any_auto:
+      routes.append(("inf_stored", True, True))
+    if spec.get("history") or idx % 4 == 0:
+      routes.append(("plain_again", False, True))
+    key = (spec["stream"], spec["family"], label(b.src_spec) + (b.src_form or ""),
+           tuple((it["kind"], it.get("cls"), label(it.get("wspec")), label(it.get("bspec")) if it.get("has_bias", True) else
+                  "unused:" + label(it.get("unused_bspec")),
                   label(it.get("aspec") or it.get("spec")), tuple(it.get("kshape", ()))) for it in b.items))
-    run.case(key, sample={"stream": spec["stream"], "layers": [str(k_) for k_ in key[3]],
-                          "json": {n: dict(v) if hasattr(v, "items") else v
-                                   for n, v in list(qt._output_dict.items())[1:2]}} if len(run.samples) < 4 else None)
-    run.count("stream_" + spec["stream"])
-    run.count("family_" + spec["family"])
-    impl_reports = []
-    for it in b.items:
-      item = lmap[it["layer"]]
-      il = qtools_util.get_val(item, "input_quantizer_list")
-      rep = {"input": qtypes.to_rec(il[0]), "output": rec_of(item, "output_quantizer")}
-      if it["kind"] == "layer":
-        rep["types"] = {k_: rec_of(item, k_) for k_ in ("multiplier", "accumulator", "fused_accumulator")}
-        rep["types"]["weight"] = rec_of(item, "weight_quantizer")
-        rep["types"]["bias"] = rec_of(item, "bias_quantizer")
-        rep["types"]["impl"] = qtools_util.get_val(item, "multiplier").implemented_as()
-      impl_reports.append(rep)
-    # interface.map_to_json: every record of the layer map against its _output_dict entry
-    for it in b.items:
-      item = lmap[it["layer"]]
-      jd = qt._output_dict[it["layer"].name]
-      pairs = [(qtools_util.get_val(item, "input_quantizer_list")[0], jd["input_quantizer_list"][0]),
-               (qtools_util.get_val(item, "output_quantizer"), jd.get("output_quantizer"))]
-      if it["kind"] == "layer":
-        for k_ in ("weight_quantizer", "bias_quantizer"):
-          pairs.append((qtools_util.get_val(item, k_), jd.get(k_)))
-        for k_ in ("multiplier", "accumulator", "fused_accumulator"):
-          pairs.append((qtools_util.get_val(item, k_).output, jd.get(k_)))
-      for qobj, jq in pairs:
-        if qobj is None and not jq:
-          continue
-        pop_lines.append({"op": "populate", "q": qtypes.to_rec(qobj)})
-        pop_meta.append((idx, it["layer"].name, {k_: int(v) for k_, v in (jq or {}).items()
-                                                 if k_ in ("bits", "int_bits", "is_signed")}))
-    chain_lines.append({"op": "chain", "src": qk_json(src_q), "nodes": b.nodes})
-    chain_meta.append((idx, spec, key, impl_reports, b))
+    first_reports = None
+    for route, is_inf, already in routes:
+      saved = None
+      if route == "inf_stored":
+        saved = [(it["layer"], it["layer"].get_weights()) for it in layers]
+        for it in layers:
+          it["layer"].set_weights([it["k"]] + ([it["bias"]] if it["bias"] is not None else []))
+      err = None
+      try:
+        with quiet():
+          qt = run_qtools.QTools(model, process="horowitz", source_quantizers=src_arg, is_inference=is_inf,
+                                 weights_path=None, keras_quantizer="fp32", keras_accumulator="fp32",
+                                 for_reference=False, model_weights_already_quantized=already)
+      except Exception as e:  # pylint: disable=broad-except
+        # AssertionError: adjust_accumulator_for_auto_po2 "depth_multiplier must be 1" — the model must reject it too
+        err = type(e).__name__
+      finally:
+        if saved:
+          for lyr_, ws_ in saved:
+            lyr_.set_weights(ws_)
+      nodes = b.nodes
+      if is_inf:
+        nodes = [dict(n) for n in b.nodes]
+        for it in layers:
+          nodes[it["node_index"]].update(it["inf_fields"])
+      if err is not None:
+        run.case(("rejected", route, spec["stream"], spec["family"], idx))
+        run.count("qtools_raises_" + err)
+        if route != "plain_again":
+          chain_lines.append({"op": "chain", "src": src_json, "nodes": nodes, "inference": is_inf})
+          chain_meta.append((idx, route, spec, ("rejected", err), None, b))
+        continue
+      lmap = qt._layer_map["layer_data_type_map"]
+      run.case(key + (route,), sample={"stream": spec["stream"], "route": route, "layers": [str(k_) for k_ in key[3]],
+                                       "json": {n: dict(v) if hasattr(v, "items") else v
+                                                for n, v in list(qt._output_dict.items())[1:2]}}
+               if len(run.samples) < 4 else None)
+      run.count("route_" + route)
+      if route == "plain":
+        run.count("stream_" + spec["stream"])
+        run.count("family_" + spec["family"])
+        if b.src_form:
+          run.count("source_quantizers_as_" + b.src_form)
+      impl_reports = []
+      for it in b.items:
+        item = lmap[it["layer"]]
+        il = qtools_util.get_val(item, "input_quantizer_list")
+        rep = {"input": qtypes.to_rec(il[0]), "output": rec_of(item, "output_quantizer")}
+        if it["kind"] == "layer":
+          rep["types"] = {k_: rec_of(item, k_) for k_ in ("multiplier", "accumulator", "fused_accumulator")}
+          rep["types"]["weight"] = rec_of(item, "weight_quantizer")
+          rep["types"]["bias"] = rec_of(item, "bias_quantizer")
+          rep["types"]["impl"] = qtools_util.get_val(item, "multiplier").implemented_as()
+          # the one field update_inference_values writes (PowerOfTwo.__init__: -1; absent on the other classes)
+          rep["counts"] = [int(getattr(qtools_util.get_val(item, k_), "inference_value_counts", -1))
+                           for k_ in ("weight_quantizer", "bias_quantizer")]
+        impl_reports.append(rep)
+      if route == "plain":
+        first_reports = impl_reports
+      if route == "plain_again":
+        # history on one model / one set of quantizer objects: the k-th analysis reports what the first one did
+        run.compared += 1
+        if impl_reports != first_reports:
+          run.disagree("qtools_history", {"model": idx, "stream": spec["stream"], "routes": [r_[0] for r_ in routes]},
+                       impl_reports, first_reports)
+        continue
+      # interface.map_to_json: every record of the layer map against its _output_dict entry
+      for it in b.items:
+        item = lmap[it["layer"]]
+        jd = qt._output_dict[it["layer"].name]
+        pairs = [(qtools_util.get_val(item, "input_quantizer_list")[0], jd["input_quantizer_list"][0]),
+                 (qtools_util.get_val(item, "output_quantizer"), jd.get("output_quantizer"))]
+        if it["kind"] == "layer":
+          for k_ in ("weight_quantizer", "bias_quantizer"):
+            pairs.append((qtools_util.get_val(item, k_), jd.get(k_)))
+          for k_ in ("multiplier", "accumulator", "fused_accumulator"):
+            pairs.append((qtools_util.get_val(item, k_).output, jd.get(k_)))
+        for qobj, jq in pairs:
+          if qobj is None and not jq:
+            continue
+          pop_lines.append({"op": "populate", "q": qtypes.to_rec(qobj)})
+          pop_meta.append((idx, it["layer"].name, {k_: int(v) for k_, v in (jq or {}).items()
+                                                   if k_ in ("bits", "int_bits", "is_signed")}))
+      chain_lines.append({"op": "chain", "src": src_json, "nodes": nodes, "inference": is_inf})
+      chain_meta.append((idx, route, spec, key, impl_reports, b))
 
-    # ---- stream 2: values vs reported types (judged later in one driver call)
-    for pos, (it, rep) in enumerate(zip(b.items, impl_reports)):
-      if spec.get("types_only"):
-        run.count("values_not_judged(types_only)")
-        break
-      base = {"model": idx, "pos": pos, "stream": spec["stream"], "family": spec["family"]}
-      judge(rep["input"], uniq(it["x"]), dict(base, site="layer_input", kindof=it["kind"], cls=it.get("cls"),
-                                               prev=(b.items[pos - 1]["kind"] if pos else "source"),
-                                               prev_cls=(b.items[pos - 1].get("spec") or (None,))[0] if pos else None,
-                                               in_name=rep["input"]["name"]))
-      if it["kind"] == "qact":
-        aspec = it["spec"]
-        judge(rep["output"], uniq(it["y"]),
-              dict(base, site="activation", cls=aspec[0], max_value_le1=bool((aspec[1].get("max_value") or 2) <= 1)))
-      elif it["kind"] == "pass":
-        judge(rep["output"], uniq(it["y"]), dict(base, site="passthrough", in_name=rep["input"]["name"],
-                                                 out_name=rep["output"]["name"]))
-      else:
-        t = rep["types"]
-        k, bias, scale = it["k"], it["bias"], it["scale"]
-        wname = it["wspec"][0]
-        alpha = "auto_po2" if scale is not None else "const"
-        kcodes = k / scale if scale is not None else k
-        judge(t["weight"], uniq(kcodes), dict(base, site="weight", cls=wname, alpha=alpha))
-        if bias is not None:
-          judge(t["bias"], uniq(bias), dict(base, site="bias", cls=it["bspec"][0]))
-        ref = ref_preact(it, k, bias)
-        pre = it["pre"].astype(np.float64)
-        n_pre += pre.size
-        if not np.array_equal(ref, pre):
-          inexact += int(np.sum(ref != pre))
-          run.count("preact_float32_inexact_models")
-        n_terms = int(np.prod(it["kshape"][:-1])) if it["cls"] != "QDepthwiseConv2D" else int(np.prod(it["kshape"][:-2]))
-        acc_key = "fused_accumulator" if (scale is not None) else "accumulator"
-        xin = it["x"]
-        wrec, xrec = t["weight"], rep["input"]
-        # is the worst case most-negative x most-negative everywhere?
-        meta = dict(base, site="preactivation", entry=acc_key, w_cls=wname, w_alpha=alpha, w_mode=wrec["mode"],
-                    x_mode=xrec["mode"], m_mode=t["multiplier"]["mode"], m_is_po2=bool(t["multiplier"]["is_po2"]),
-                    b_mode=(t["bias"]["mode"] if t["bias"] else None), n_terms=n_terms,
-                    n_is_pow2=(n_terms & (n_terms - 1)) == 0, cls=it["cls"])
-        meta["_pre"] = pre
-        meta["_x"] = xin
-        meta["_k"] = k
-        meta["_tags"] = tags
-        judge(t[acc_key], uniq(pre), meta)
-        if it["aspec"] is not None:
-          judge(rep["output"], uniq(it["y"]), dict(base, site="activation", cls=it["aspec"][0], max_value_le1=False))
+      # ---- stream 2: values vs the types reported on this route (judged later in one driver call)
+      for pos, (it, rep) in enumerate(zip(b.items, impl_reports)):
+        if spec.get("types_only"):
+          run.count("values_not_judged(types_only)")
+          break
+        base = {"model": idx, "route": route, "pos": pos, "stream": spec["stream"], "family": spec["family"]}
+        judge(rep["input"], uniq(it["x"]), dict(base, site="layer_input", kindof=it["kind"], cls=it.get("cls"),
+                                                 prev=(b.items[pos - 1]["kind"] if pos else "source"),
+                                                 prev_cls=(b.items[pos - 1].get("spec") or (None,))[0] if pos else None,
+                                                 in_name=rep["input"]["name"]))
+        if it["kind"] == "qact":
+          aspec = it["spec"]
+          judge(rep["output"], uniq(it["y"]),
+                dict(base, site="activation", cls=aspec[0], max_value_le1=bool((aspec[1].get("max_value") or 2) <= 1)))
+        elif it["kind"] == "pass":
+          judge(rep["output"], uniq(it["y"]), dict(base, site="passthrough", in_name=rep["input"]["name"],
+                                                   out_name=rep["output"]["name"]))
         else:
-          # without an activation the layer's output tensor is reported with `accumulator.output`
-          judge(rep["output"], uniq(it["y"]), dict(base, site="layer_output", w_alpha=alpha, w_cls=wname))
-        run.count("pair_w%d_x%d" % (wrec["mode"], xrec["mode"]))
-        run.count("bias_%s" % ("none" if t["bias"] is None else "mode%d" % t["bias"]["mode"]))
+          t = rep["types"]
+          k, bias, scale = it["k"], it["bias"], it["scale"]
+          wname = (it["wspec"] or ("None",))[0]
+          if wname in ("quantized_ulaw",):
+            continue
+          alpha = "auto_po2" if scale is not None else "const"
+          kcodes = k / scale if scale is not None else k
+          judge(t["weight"], uniq(kcodes), dict(base, site="weight", cls=wname, alpha=alpha))
+          if bias is not None:
+            judge(t["bias"], uniq(bias), dict(base, site="bias", cls=(it["bspec"] or ("None",))[0]))
+          if "pre64" not in it:
+            ref = ref_preact(it, k, bias)
+            pre = it["pre"].astype(np.float64)
+            it["pre64"] = pre
+            n_pre += pre.size
+            if "bernoulli" in (wname, (it["bspec"] or ("None",))[0]):
+              # bernoulli draws a fresh 0/1 sample at EVERY call (also outside training): the kernel the layer used is
+              # not the one eff_weights saw; each sample is judged on its own, the recomputation is not comparable
+              run.count("preact_recomputation_not_comparable(bernoulli constants are resampled per call)")
+            elif not np.array_equal(ref, pre):
+              inexact += int(np.sum(ref != pre))
+              run.count("preact_float32_inexact_models")
+              run.count("preact_float32_inexact_%s_%s_x%s" % (spec["stream"], wname, label(b.src_spec)))
+          pre = it["pre64"]
+          n_terms = int(np.prod(it["kshape"][:-1])) if it["cls"] != "QDepthwiseConv2D" else int(np.prod(it["kshape"][:-2]))
+          acc_key = "fused_accumulator" if (scale is not None) else "accumulator"
+          xin = it["x"]
+          wrec, xrec = t["weight"], rep["input"]
+          # is the worst case most-negative x most-negative everywhere?
+          meta = dict(base, site="preactivation", entry=acc_key, w_cls=wname, w_alpha=alpha, w_mode=wrec["mode"],
+                      x_mode=xrec["mode"], m_mode=t["multiplier"]["mode"], m_is_po2=bool(t["multiplier"]["is_po2"]),
+                      b_mode=(t["bias"]["mode"] if t["bias"] else None), n_terms=n_terms,
+                      n_is_pow2=(n_terms & (n_terms - 1)) == 0, cls=it["cls"])
+          meta["_pre"] = pre
+          meta["_x"] = xin
+          meta["_k"] = k
+          meta["_tags"] = tags
+          judge(t[acc_key], uniq(pre), meta)
+          if it["aspec"] is not None:
+            judge(rep["output"], uniq(it["y"]), dict(base, site="activation", cls=it["aspec"][0], max_value_le1=False))
+          else:
+            # without an activation the layer's output tensor is reported with `accumulator.output`
+            judge(rep["output"], uniq(it["y"]), dict(base, site="layer_output", w_alpha=alpha, w_cls=wname))
+          if route == "plain":
+            run.count("pair_w%d_x%d" % (wrec["mode"], xrec["mode"]))
+            run.count("bias_%s" % ("none" if t["bias"] is None else "mode%d" % t["bias"]["mode"]))
+            run.count("kernel_class_" + wname)
+            if t["bias"] is not None:
+              run.count("bias_class_" + (it["bspec"] or ("None",))[0])
+            elif it["unused_bspec"] is not None:
+              run.count("unused_bias_quantizer_" + it["unused_bspec"][0])
 
     # ---- stream 3: the estimator, single q-layer models whose kernel re-quantizes idempotently
-    if len(layers) == 1 and layers[0]["scale"] is None and spec["stream"] in ("grid", "random", "mostneg", "est_dw"):
+    resampled = any("bernoulli" in ((it["wspec"] or ("",))[0], (it["bspec"] or ("",))[0]) for it in layers)
+    if (len(layers) == 1 and layers[0]["scale"] is None and not resampled
+        and spec["stream"] in ("grid", "random", "mostneg", "est_dw", "alias")):
       it = layers[0]
       lyr = it["layer"]
       try:
@@ -713,6 +1027,15 @@ def run(run: core.Run, tier: str):
       bvec = ws[1].astype(np.float64) if lyr.use_bias else np.zeros((k.shape[-1],))
       if not np.array_equal(k, it["k"].astype(np.float64)):
         run.count("est_saved_kernel_differs_from_effective")
+      # the estimator reads the STORED constants, the layer applies its quantizers to them once more: the two only
+      # talk about the same numbers when the quantizers are idempotent on the stored values (bernoulli maps 0 to 1,
+      # quantized_tanh squashes again)
+      k_now, b_now = eff_weights(lyr)
+      if not np.array_equal(k_now.astype(np.float64), k) or (lyr.use_bias and not np.array_equal(
+          b_now.astype(np.float64), ws[1].astype(np.float64))):
+        run.count("est_skipped_quantizer_not_idempotent_" + (it["wspec"] or ("None",))[0])
+        tf.keras.backend.clear_session()
+        continue
       # the range of the tensor feeding the layer, from the values actually seen, widened a little
       xin = it["x"]
       choices = [(float(xin.min()), float(xin.max())), (-1.0, 1.0), (-0.5, 0.5), (0.0, 1.0), (-2.0, 0.25), (-1.0, 2.0)]
@@ -773,17 +1096,31 @@ def run(run: core.Run, tier: str):
   # ------------------------------------------------------------------ Lean: types
   outs = core.run_driver("C18", chain_lines)
   mirrored = {}
-  for (idx, spec, key, impl_reports, b), o in zip(chain_meta, outs):
+  for (idx, route, spec, key, impl_reports, b), line, o in zip(chain_meta, chain_lines, outs):
     run.compared += 1
     ok = True
     if impl_reports is None:
-      if o.get("err") != "AssertionError":
-        run.disagree("chain_types", {"model": idx, "nodes": b.nodes}, {"err": "AssertionError"}, o)
+      # the real QTools raised.  The depthwise auto_po2 assert is a documented refusal; anything else means the
+      # data-type map the property talks about is not produced at all for a valid model
+      exc = key[1]
+      agree = o.get("err") == exc
+      if not agree:
+        run.disagree("chain_types", {"model": idx, "route": route, "nodes": line["nodes"]}, {"err": exc}, o)
+      if exc != "AssertionError":
+        lyrs = [it for it in b.items if it["kind"] == "layer"]
+        run.violate("qtools_reports_types",
+                    {"site": "qtools_raises", "exc": exc, "is_inference": line["inference"],
+                     "unused_bias_is_po2": any("po2" in (it["unused_bspec"] or ("",))[0] for it in lyrs)},
+                    {"model": idx, "route": route, "stream": spec["stream"], "family": spec["family"],
+                     "layers": [(it["cls"], label(it["wspec"]), "use_bias=%s" % it["has_bias"],
+                                 "bias_quantizer=" + label(it["bspec"] if it["has_bias"] else it["unused_bspec"]))
+                                for it in lyrs]}, mirrored=agree)
       continue
     if "err" in o:
-      run.disagree("chain_types", {"model": idx, "key": str(key)}, impl_reports, o)
-      mirrored[idx] = False
+      run.disagree("chain_types", {"model": idx, "route": route, "key": str(key)}, impl_reports, o)
+      mirrored[(idx, route)] = False
       continue
+    counts = o.get("counts")
     for pos, (ir, mr) in enumerate(zip(impl_reports, o["reports"])):
       diffs = {}
       for f in ("input", "output"):
@@ -798,12 +1135,15 @@ def run(run: core.Run, tier: str):
             diffs[f] = d
         if ir["types"]["impl"] != mt["impl"]:
           diffs["impl"] = (ir["types"]["impl"], mt["impl"])
+        mc = [int(v) for v in counts[pos]] if counts is not None else [-1, -1]
+        if ir["counts"] != mc:
+          diffs["inference_value_counts"] = (ir["counts"], mc)
       run.compared += 1
       if diffs:
         ok = False
-        run.disagree("chain_types", {"model": idx, "pos": pos, "stream": spec["stream"], "nodes": b.nodes,
-                                     "diffs": diffs}, ir, mr)
-    mirrored[idx] = ok
+        run.disagree("chain_types", {"model": idx, "route": route, "pos": pos, "stream": spec["stream"],
+                                     "nodes": line["nodes"], "diffs": diffs}, ir, mr)
+    mirrored[(idx, route)] = ok
 
   outs = core.run_driver("C18", pop_lines)
   for (idx, lname, jd), line, o in zip(pop_meta, pop_lines, outs):
@@ -814,29 +1154,30 @@ def run(run: core.Run, tier: str):
 
   # ------------------------------------------------------------------ Lean: clause oracle on values
   outs = core.run_driver("C18", judge_lines)
-  n_vals = 0
+  n_vals = sum(o["n"] for o in outs)
   failed = {}
-  for meta, o in zip(judge_meta, outs):
-    n_vals += o["n"]
+  for meta, li in judge_meta:
+    o = outs[li]
     run.count("judged_" + meta["site"])
     if o["bad"]:
-      failed[(meta["model"], meta["pos"], meta["site"])] = True
-  reports_of = {idx: impl_reports for (idx, _, _, impl_reports, _) in chain_meta if impl_reports is not None}
-  for meta, line, o in zip(judge_meta, judge_lines, outs):
+      failed[(meta["model"], meta["route"], meta["pos"], meta["site"])] = True
+  reports_of = {(idx, route): impl_reports for (idx, route, _, _, impl_reports, _) in chain_meta if impl_reports is not None}
+  for meta, li in judge_meta:
+    o, line = outs[li], judge_lines[li]
     if not o["bad"]:
       continue
     bad = o["bad"][0]
     why = bad["why"]
     v = core.unrj(bad["v"])
     site = meta["site"]
-    mi, pos = meta["model"], meta["pos"]
-    keyd = {"site": site, "why": why}
+    mi, route, pos = meta["model"], meta["route"], meta["pos"]
+    keyd = {"site": site, "why": why, "route": route}
     detail = {"model": mi, "pos": pos, "stream": meta["stream"], "family": meta["family"],
               "reported_type": line["q"], "value": str(v), "n_bad_shown": len(o["bad"])}
     if site == "preactivation":
       # C18_preactivation's hypotheses: inputs, weights and bias are values of their reported types.
       # Where they are not (an upstream finding), the pre-activation failure is its consequence.
-      if any(failed.get((mi, pos, s_)) for s_ in ("layer_input", "weight", "bias")):
+      if any(failed.get((mi, route, pos, s_)) for s_ in ("layer_input", "weight", "bias")):
         run.count("preactivation_failure_with_failed_hypothesis(skipped)")
         continue
       pre, xin, k = meta["_pre"], meta["_x"], meta["_k"]
@@ -862,7 +1203,7 @@ def run(run: core.Run, tier: str):
     elif site == "activation":
       keyd.update({"cls": meta["cls"], "max_value_le1": meta["max_value_le1"]})
     elif site == "layer_output":
-      if failed.get((mi, pos, "preactivation")) and meta["w_alpha"] != "auto_po2":
+      if failed.get((mi, route, pos, "preactivation")) and meta["w_alpha"] != "auto_po2":
         run.count("layer_output_same_as_preactivation_failure(skipped)")
         continue
       keyd.update({"w_alpha": meta["w_alpha"], "w_cls": meta["w_cls"]})
@@ -871,23 +1212,24 @@ def run(run: core.Run, tier: str):
     elif site == "bias":
       keyd.update({"cls": meta["cls"]})
     elif site == "passthrough":
-      if failed.get((mi, pos, "layer_input")) and meta["in_name"] == meta["out_name"]:
+      if failed.get((mi, route, pos, "layer_input")) and meta["in_name"] == meta["out_name"]:
         run.count("passthrough_same_as_input_failure(skipped)")
         continue
       keyd.update({"in_name": meta["in_name"], "out_name": meta["out_name"]})
     elif site == "layer_input":
       # the consumer-side view of the producer's output tensor: same tensor, same reported type
-      reps = reports_of[mi]
+      reps = reports_of[(mi, route)]
       if pos > 0 and not recs_differ(reps[pos]["input"], reps[pos - 1]["output"]) and any(
-          failed.get((mi, pos - 1, s_)) for s_ in ("activation", "passthrough", "layer_output")):
+          failed.get((mi, route, pos - 1, s_)) for s_ in ("activation", "passthrough", "layer_output")):
         run.count("layer_input_same_as_producer_failure(skipped)")
         continue
       keyd.update({"prev": meta["prev"], "prev_cls": meta["prev_cls"], "in_name": meta["in_name"]})
-    run.violate("value_fits_reported_type", keyd, detail, mirrored=mirrored.get(mi, False))
-  for m in judge_meta:
+    run.violate("value_fits_reported_type", keyd, detail, mirrored=mirrored.get((mi, route), False))
+  for m, _ in judge_meta:
     for k_ in ("_pre", "_x", "_k", "_tags"):
       m.pop(k_, None)
   run.extra["values_judged"] = n_vals
+  run.extra["value_requests"] = len(judge_meta)
   run.extra["preactivation_elements"] = n_pre
   run.extra["preactivation_elements_float32_inexact"] = inexact
 
@@ -921,8 +1263,8 @@ def run(run: core.Run, tier: str):
       run.violate("estimator_bounds_output",
                   {"site": "estimator", "exc": None, "cls": meta["cls"], "rank": rank,
                    "bias_nonzero": meta["bias_nonzero"]},
-                  {"layer": meta["cls"], "kernel_shape": meta["shape"], "range": [meta["xmin"], meta["xmax"]],
-                   "estimate": est, "max_abs_output_per_channel": meta["per_chan"], "channels_over": badc},
+                  {"layer": meta["cls"], "kernel": meta["wlabel"], "kernel_shape": meta["shape"],
+                   "range": [meta["xmin"], meta["xmax"]], "estimate": est, "max_abs_output_per_channel": meta["per_chan"], "channels_over": badc},
                   mirrored=agree)
 
   # ------------------------------------------------------------------ po2 real exponent range vs model
